@@ -529,4 +529,703 @@ theorem beStep_retry_of_rejected (r : BEState α)
 
 end BEAny
 
+/-! ## Part 2 — ordered field: time and step-size bounds (C06) -/
+
+section BEOrdered
+variable {K : Type} [Field K] [LinearOrder K] [IsStrictOrderedRing K]
+variable {o : Ops K} (ho : OrderedOps o) (s : SolverCfg K) (p : BEParams K) (kc : Mat K)
+    (atol : Array K) (rtol : K) (T : K)
+
+/-- time invariant of the loop when the first `H` does not exceed `time_step` -/
+structure BETimeInv (T : K) (r : BEState K) : Prop where
+  t0 : 0 ≤ r.t
+  h0 : 0 ≤ r.h
+  tT : r.t ≤ T
+  hle : r.done = false → r.h ≤ T - r.t
+  fin : r.done = true →
+    r.status = .acceptingUnconvergedIntegration ∨ (r.status = .converged ∧ r.t = T)
+  stat : r.done = false →
+    r.status = .converged ∨ ((r.status = .running ∨ r.status = .notYetCalled) ∧ r.t < T)
+
+include ho in
+theorem BETimeInv_step (hred : ∀ x ∈ p.reductions, 0 ≤ x) (r : BEState K) (hd : r.done = false)
+    (h : BETimeInv T r) : BETimeInv T (beStep o s p kc atol rtol T r) := by
+  obtain ⟨i1, i2, i3, i4, i5, i6⟩ := h
+  have i4 := i4 hd
+  have i6 := i6 hd
+  have hhead : ((beHead o T r).done = true → (beHead o T r).status = .converged ∧ r.t = T) ∧
+      ((beHead o T r).done = false → (beHead o T r).status = .converged ∨
+        (((beHead o T r).status = .running ∨ (beHead o T r).status = .notYetCalled) ∧ r.t < T)) := by
+    rcases beHead_cases o T r with ⟨h0, hl, h⟩ | ⟨h0, hl, h⟩ | ⟨h0, h⟩
+    · rw [ho.lt] at hl
+      have hl : r.t < T := by simpa using hl
+      rw [h]; exact ⟨fun h' => (by simp [hd] at h'), fun _ => Or.inr ⟨Or.inl rfl, hl⟩⟩
+    · rw [ho.lt] at hl
+      have hl : ¬ r.t < T := by simpa using hl
+      rw [h]
+      refine ⟨fun _ => ?_, fun h' => (by simp at h')⟩
+      rcases i6 with h6 | ⟨_, h6⟩
+      · exact ⟨h6, le_antisymm i3 (not_lt.mp hl)⟩
+      · exact absurd h6 hl
+    · rw [h]; exact ⟨fun h' => (by rw [hd] at h'; cases h'), fun _ => i6⟩
+  have hc := beStep_cases o s p kc atol rtol T r
+  generalize beStep o s p kc atol rtol T r = r' at hc ⊢
+  cases hc with
+  | exit h =>
+    obtain ⟨h1, h2⟩ := hhead.1 h
+    exact ⟨by simpa using i1, by simpa using i2, by simpa using i3,
+      fun h' => (by rw [h] at h'; cases h'), fun _ => Or.inr ⟨h1, by simpa using h2⟩,
+      fun h' => (by rw [h] at h'; cases h')⟩
+  | cont h1 _ _ =>
+    exact ⟨by simpa [beNewton] using i1, by simpa [beNewton] using i2, by simpa [beNewton] using i3,
+      fun _ => (by simpa [beNewton] using i4), fun h' => (by simp [beNewton, h1] at h'),
+      fun _ => (by simpa [beNewton] using hhead.2 h1)⟩
+  | giveUp h1 _ _ _ =>
+    refine ⟨?_, by simpa [beGiveUp, beNewton] using i2, ?_, fun h' => (by simp [beGiveUp] at h'),
+      fun _ => Or.inl rfl, fun h' => (by simp [beGiveUp] at h')⟩
+    · simp only [beGiveUp, beNewton, beHead_t, beHead_h]; linarith
+    · simp only [beGiveUp, beNewton, beHead_t, beHead_h]; linarith
+  | retry h1 _ _ h4 =>
+    have hr : 0 ≤ p.reductions.getD r.nFail 1 := by
+      have e : p.reductions.getD r.nFail 1 = p.reductions[r.nFail] := by simp [List.getD, h4]
+      rw [e]; exact hred _ (List.getElem_mem h4)
+    refine ⟨by simpa [beRetry, beNewton] using i1, ?_, by simpa [beRetry, beNewton] using i3, ?_,
+      fun h' => (by simp [beRetry, beNewton, h1] at h'),
+      fun _ => (by simpa [beRetry, beNewton] using hhead.2 h1)⟩
+    · simp only [beRetry, beNewton, beHead_t, beHead_h, beHead_nFail, ho.cmin_eq]
+      exact le_min (mul_nonneg i2 hr) (by linarith)
+    · intro _
+      simp only [beRetry, beNewton, beHead_t, beHead_h, beHead_nFail, ho.cmin_eq]
+      exact min_le_right _ _
+  | accept h1 _ =>
+    refine ⟨?_, ?_, ?_, ?_, fun h' => (by simp [beAccept_eq, beNewton, h1] at h'),
+      fun _ => Or.inl (by simp [beAccept_eq])⟩
+    · simp only [beAccept_eq, beNewton, beHead_t, beHead_h]; linarith
+    · simp only [beAccept_eq, beNewton, beHead_t, beHead_h, beHead_nSucc, ho.cmin_eq]
+      refine le_min ?_ (by linarith)
+      split
+      · exact mul_nonneg i2 (by norm_num)
+      · exact i2
+    · simp only [beAccept_eq, beNewton, beHead_t, beHead_h]; linarith
+    · intro _
+      simp only [beAccept_eq, beNewton, beHead_t, beHead_h, beHead_nSucc, ho.cmin_eq]
+      exact min_le_right _ _
+
+include ho in
+theorem beInitialH_eq : beInitialH o p T = if p.hstart = 0 then T else p.hstart := by
+  unfold beInitialH; rw [ho.eq]; simp only [decide_eq_true_eq]
+
+theorem BETimeInv_init (hT : 0 < T) (h : K) (h0 : 0 ≤ h) (hle : h ≤ T) (Y : Mat K) (sc : Scratch K) :
+    BETimeInv T (beInit h Y sc) :=
+  ⟨le_refl _, h0, le_of_lt hT, fun _ => (by simpa [beInit] using hle),
+    fun h' => (by simp [beInit] at h'), fun _ => Or.inr ⟨Or.inr rfl, hT⟩⟩
+
+include ho in
+/-- where `beLoop` stops: `0 ≤ t ≤ T`, `0 ≤ h`, the status is `converged`,
+    `acceptingUnconvergedIntegration` or `outOfFuel`, and `converged` means `t = T` exactly -/
+theorem beLoop_time (hred : ∀ x ∈ p.reductions, 0 ≤ x) (fuel : Nat) (r : BEState K)
+    (h : BETimeInv T r) :
+    0 ≤ (beLoop o s p kc atol rtol T fuel r).t ∧ (beLoop o s p kc atol rtol T fuel r).t ≤ T ∧
+    0 ≤ (beLoop o s p kc atol rtol T fuel r).h ∧
+    ((beLoop o s p kc atol rtol T fuel r).status = .converged →
+      (beLoop o s p kc atol rtol T fuel r).t = T) ∧
+    ((beLoop o s p kc atol rtol T fuel r).status = .converged ∨
+     (beLoop o s p kc atol rtol T fuel r).status = .acceptingUnconvergedIntegration ∨
+     (beLoop o s p kc atol rtol T fuel r).status = .outOfFuel) := by
+  rcases beLoop_inv' o s p kc atol rtol T (BETimeInv T)
+    (fun r hd h => BETimeInv_step ho s p kc atol rtol T hred r hd h) fuel r h with ⟨h1, h2⟩ | ⟨r', h1, _, h3⟩
+  · refine ⟨h1.t0, h1.tT, h1.h0, fun hc => ?_, ?_⟩
+    · rcases h1.fin h2 with h4 | ⟨_, h4⟩
+      · rw [hc] at h4; cases h4
+      · exact h4
+    · rcases h1.fin h2 with h4 | ⟨h4, _⟩
+      · exact Or.inr (Or.inl h4)
+      · exact Or.inl h4
+  · rw [h3]
+    exact ⟨h1.t0, h1.tT, h1.h0, fun hc => (by simp at hc), Or.inr (Or.inr rfl)⟩
+
+/-- without any assumption on `h_start`: a `done` state that is not the give-up exit has `T ≤ t` -/
+def BEFinInv (T : K) (r : BEState K) : Prop :=
+  r.done = true → r.status = .acceptingUnconvergedIntegration ∨ T ≤ r.t
+
+include ho in
+theorem BEFinInv_step (r : BEState K) (hd : r.done = false) :
+    BEFinInv T (beStep o s p kc atol rtol T r) := by
+  have hc := beStep_cases o s p kc atol rtol T r
+  generalize beStep o s p kc atol rtol T r = r' at hc ⊢
+  cases hc with
+  | exit h =>
+    intro _
+    rcases beHead_cases o T r with ⟨h0, hl, h'⟩ | ⟨h0, hl, h'⟩ | ⟨h0, h'⟩
+    · rw [h'] at h; simp [hd] at h
+    · rw [ho.lt] at hl
+      have hl : ¬ r.t < T := by simpa using hl
+      right; simpa using not_lt.mp hl
+    · rw [h', hd] at h; cases h
+  | cont h1 _ _ => intro h'; simp [beNewton, h1] at h'
+  | giveUp _ _ _ _ => intro _; exact Or.inl rfl
+  | retry h1 _ _ _ => intro h'; simp [beRetry, beNewton, h1] at h'
+  | accept h1 _ => intro h'; simp [beAccept_eq, beNewton, h1] at h'
+
+end BEOrdered
+
+/-! ## Part 3 — exact arithmetic: the Newton update of one cell (C05, C08, C09) -/
+
+section BEField
+variable {K : Type} [Field K]
+
+/-- `AddToDiagonal(v)` and `AlphaMinusJacobian(v)` are the same operation on the model's cells -/
+theorem addDiag_eq (s : SolverCfg K) (J : Mat K) (v : K) :
+    addDiag s.diag J v = s.alphaMinusJacobian J v := rfl
+
+theorem beMatrix_eq (s : SolverCfg K) (kc : Mat K) (r : BEState K) :
+    beMatrix s kc r = s.alphaMinusJacobian (s.jacobian kc r.Yn1 (fillM r.sc.jac 0)) (1 / r.h) := rfl
+
+/-- the right-hand side handed to `Solve`: `forcing − (Yn1 − Yn)/H` -/
+def beRhs (s : SolverCfg K) (kc : Mat K) (r : BEState K) : Mat K :=
+  (beForcing s kc r).mapIdx fun c fr => fr.mapIdx fun v f =>
+    f - (rd (r.Yn1.getD c #[]) v - rd (r.Yn.getD c #[]) v) / r.h
+
+theorem beResidual_eq (s : SolverCfg K) (kc : Mat K) (r : BEState K) :
+    beResidual s kc r =
+      s.linSolve (beFactor s kc r).1 (beFactor s kc r).2.1 (beFactor s kc r).2.2 (beRhs s kc r) := rfl
+
+/-- the Newton iterate before the clamp `max(·, 0)` -/
+def beUnclipped (s : SolverCfg K) (kc : Mat K) (r : BEState K) : Mat K :=
+  r.Yn1.mapIdx fun c yr => yr.mapIdx fun v y => y + rd ((beResidual s kc r).getD c #[]) v
+
+theorem rd_mapIdx_lt (f : Nat → K → K) (a : Array K) (v : Nat) (hv : v < a.size) :
+    rd (a.mapIdx f) v = f v (rd a v) := by
+  simp [rd, Array.getD, hv]
+
+variable (o : Ops K) {s : SolverCfg K} (kc : Mat K) {n : Nat} (c : Nat)
+    {m : NameMap} {procs : List (Process K)} {kind : LUKind} {jac : Pattern}
+
+/-- entry-wise: the un-clipped iterate is `y + δ` -/
+theorem rd_beUnclipped (s : SolverCfg K) (r : BEState K) (hY : CellShape n c r.Yn1) (v : Nat)
+    (hv : v < n) :
+    rd ((beUnclipped s kc r).getD c #[]) v
+      = rd (r.Yn1.getD c #[]) v + rd ((beResidual s kc r).getD c #[]) v := by
+  have hv' : v < (r.Yn1.getD c #[]).size := by rw [hY.2]; exact hv
+  unfold beUnclipped
+  rw [getD_mapIdx _ r.Yn1 c hY.1 #[] #[], rd_mapIdx_lt _ _ _ hv']
+
+/-- entry-wise: the new `Yn1` is the clamp of the un-clipped iterate `y + δ` -/
+theorem rd_beNewY (r : BEState K) (hY : CellShape n c r.Yn1) (v : Nat) (hv : v < n) :
+    rd ((beNewY o s kc r).getD c #[]) v = cmax o (rd ((beUnclipped s kc r).getD c #[]) v) 0 := by
+  have hv' : v < (r.Yn1.getD c #[]).size := by rw [hY.2]; exact hv
+  rw [rd_beUnclipped kc c s r hY v hv]
+  unfold beNewY
+  rw [getD_mapIdx _ r.Yn1 c hY.1 #[] #[], rd_mapIdx_lt _ _ _ hv']
+
+theorem beNewY_shape (r : BEState K) (hY : CellShape n c r.Yn1) :
+    CellShape n c (beNewY o s kc r) ∧ CellShape n c (beUnclipped s kc r) := by
+  refine ⟨⟨by simpa [beNewY] using hY.1, ?_⟩, ⟨by simpa [beUnclipped] using hY.1, ?_⟩⟩
+  · unfold beNewY; rw [getD_mapIdx _ r.Yn1 c hY.1 #[] #[]]; simpa using hY.2
+  · unfold beUnclipped; rw [getD_mapIdx _ r.Yn1 c hY.1 #[] #[]]; simpa using hY.2
+
+/-- cell `c` of the forcing is the mass-action forcing of `Yn1[c]` assembled into a zero vector -/
+theorem beForcing_cell (s : SolverCfg K) (r : BEState K) (hf0 : CellShape n c r.sc.f0) :
+    CellShape n c (beForcing s kc r) ∧
+    (beForcing s kc r).getD c #[] =
+      s.tables.addForcingCell (kc.getD c #[]) (r.Yn1.getD c #[]) (Array.replicate n 0) := by
+  obtain ⟨z1, z2⟩ := cellShape_fillM hf0 (0 : K)
+  refine ⟨cellShape_forcing s kc _ _ z1, ?_⟩
+  unfold beForcing
+  rw [forcing_getD s kc r.Yn1 _ c z1.1, z2]
+
+theorem beRhs_cell (s : SolverCfg K) (r : BEState K) (hf0 : CellShape n c r.sc.f0) :
+    CellShape n c (beRhs s kc r) ∧
+    ∀ i, i < n → rd ((beRhs s kc r).getD c #[]) i =
+      rd ((beForcing s kc r).getD c #[]) i
+        - (rd (r.Yn1.getD c #[]) i - rd (r.Yn.getD c #[]) i) / r.h := by
+  obtain ⟨f1, _⟩ := beForcing_cell kc c s r hf0
+  have e : (beRhs s kc r).getD c #[] = ((beForcing s kc r).getD c #[]).mapIdx fun v f =>
+      f - (rd (r.Yn1.getD c #[]) v - rd (r.Yn.getD c #[]) v) / r.h := by
+    unfold beRhs; rw [getD_mapIdx _ _ c f1.1 #[] #[]]
+  refine ⟨⟨by simpa [beRhs] using f1.1, by rw [e]; simpa using f1.2⟩, ?_⟩
+  intro i hi
+  rw [e, rd_mapIdx_lt _ _ _ (by rw [f1.2]; exact hi)]
+
+/-- **C05, one cell**: the Newton update `δ = beResidual` of cell `c` solves
+    `(I/H − ∂f/∂y(Yn1)) δ = f(Yn1) − (Yn1 − Yn)/H` on the logical rows, for a configuration built as
+    the builder does (all four LU variants), provided no pivot of the cell is zero -/
+theorem be_newton_system (hb : BuiltCfg s m procs n kind jac) (r : BEState K)
+    (hf0 : CellShape n c r.sc.f0) (hj : CellShape s.la.A.nnz c r.sc.jac)
+    (hl : CellShape s.la.Lp.nnz c r.sc.lower) (hu : CellShape s.la.Up.nnz c r.sc.upper)
+    (hpiv : ∀ i, i < n → attPivot s (beFactor s kc r) c i ≠ 0) (i : Nat) (hi : i < n) :
+    ∑ j ∈ range n,
+      ((if i = j then 1 / r.h else 0) + negJac m procs (kc.getD c #[]) (r.Yn1.getD c #[]) i j)
+        * rd ((beResidual s kc r).getD c #[]) j
+      = rd ((beForcing s kc r).getD c #[]) i
+          - (rd (r.Yn1.getD c #[]) i - rd (r.Yn.getD c #[]) i) / r.h := by
+  obtain ⟨x1, x2⟩ := beRhs_cell kc c s r hf0
+  have hM : CellShape s.la.A.nnz c (beMatrix s kc r) := by
+    rw [beMatrix_eq]
+    exact cellShape_shift s _ _ (cellShape_jacobian s kc _ _ (cellShape_fillM hj 0).1)
+  have h := factor_solve_cell hb.la hb.jn hb.jdiag (beMatrix s kc r) r.sc.lower r.sc.upper
+    (beRhs s kc r) c hM hl hu x1 hpiv i hi
+  rw [x2 i hi] at h
+  rw [← h, beResidual_eq]
+  apply sum_congr rfl
+  intro j hj'
+  rw [beMatrix_eq, view_shifted_jacobian hb kc r.Yn1 r.sc.jac c hj (1 / r.h) i j hi (mem_range.mp hj')]
+  rfl
+
+/-! ### C09: the un-clipped iterate conserves every linear invariant -/
+
+/-- `w·(y + δ) = w·y_n` for every Newton iterate before clipping, whatever the previous iterate `y` -/
+theorem be_unclipped_conserves (hb : BuiltCfg s m procs n kind jac) (rxns : List (RRxn K))
+    (hr : Resolves m procs rxns) (w : Nat → K)
+    (hbal : ∀ rx ∈ rxns, (rx.2.map fun p => w p.1 * p.2).sum = (rx.1.map w).sum)
+    (r : BEState K) (hh : r.h ≠ 0) (hY : CellShape n c r.Yn1)
+    (hf0 : CellShape n c r.sc.f0) (hj : CellShape s.la.A.nnz c r.sc.jac)
+    (hl : CellShape s.la.Lp.nnz c r.sc.lower) (hu : CellShape s.la.Up.nnz c r.sc.upper)
+    (hpiv : ∀ i, i < n → attPivot s (beFactor s kc r) c i ≠ 0) :
+    wdot w n ((beResidual s kc r).getD c #[])
+      = - (wdot w n (r.Yn1.getD c #[]) - wdot w n (r.Yn.getD c #[])) ∧
+    wdot w n ((beUnclipped s kc r).getD c #[]) = wdot w n (r.Yn.getD c #[]) := by
+  have hsys := be_newton_system kc c hb r hf0 hj hl hu hpiv
+  -- columns of the matrix
+  have hM : ∀ j, j < n → ∑ i ∈ range n, w i *
+      ((if i = j then 1 / r.h else 0) + negJac m procs (kc.getD c #[]) (r.Yn1.getD c #[]) i j)
+      = (1 / r.h) * w j := by
+    intro j hj'
+    have e : ∀ i ∈ range n, w i *
+        ((if i = j then 1 / r.h else 0) + negJac m procs (kc.getD c #[]) (r.Yn1.getD c #[]) i j)
+        = (if i = j then w i * (1 / r.h) else 0)
+          + w i * negJac m procs (kc.getD c #[]) (r.Yn1.getD c #[]) i j := by
+      intro i _
+      by_cases hij : i = j <;> simp [hij, mul_add]
+    rw [sum_congr rfl e, sum_add_distrib, negJac_orthogonal m procs rxns hr n hb.idlt w hbal,
+      sum_ite_eq', add_zero]
+    simp only [mem_range, hj', if_true]; ring
+  have hdot := wdot_of_solve n w _ (1 / r.h) (fun j => rd ((beResidual s kc r).getD c #[]) j)
+    (fun i => rd ((beForcing s kc r).getD c #[]) i
+        - (rd (r.Yn1.getD c #[]) i - rd (r.Yn.getD c #[]) i) / r.h) hM hsys
+  -- the forcing is orthogonal to `w`
+  have hF : ∑ i ∈ range n, w i * rd ((beForcing s kc r).getD c #[]) i = 0 := by
+    rw [(beForcing_cell kc c s r hf0).2]
+    exact C09_forcing_orthogonal m procs s.tables rxns (.inr hb.tables) hr n hb.idlt w hbal _ _
+  have hb' : ∑ i ∈ range n, w i * (rd ((beForcing s kc r).getD c #[]) i
+        - (rd (r.Yn1.getD c #[]) i - rd (r.Yn.getD c #[]) i) / r.h)
+      = - ((wdot w n (r.Yn1.getD c #[]) - wdot w n (r.Yn.getD c #[])) / r.h) := by
+    have e : ∀ i ∈ range n, w i * (rd ((beForcing s kc r).getD c #[]) i
+          - (rd (r.Yn1.getD c #[]) i - rd (r.Yn.getD c #[]) i) / r.h)
+        = w i * rd ((beForcing s kc r).getD c #[]) i
+          - (w i * rd (r.Yn1.getD c #[]) i - w i * rd (r.Yn.getD c #[]) i) * r.h⁻¹ := by
+      intro i _; ring
+    rw [sum_congr rfl e, sum_sub_distrib, hF, ← sum_mul, sum_sub_distrib]
+    unfold wdot; ring
+  have hδ : wdot w n ((beResidual s kc r).getD c #[])
+      = - (wdot w n (r.Yn1.getD c #[]) - wdot w n (r.Yn.getD c #[])) := by
+    rw [hb'] at hdot
+    have e1 : wdot w n ((beResidual s kc r).getD c #[])
+        = r.h * (1 / r.h * ∑ j ∈ range n, w j * rd ((beResidual s kc r).getD c #[]) j) := by
+      unfold wdot; field_simp
+    rw [e1, ← hdot]; field_simp
+  refine ⟨hδ, ?_⟩
+  have e : wdot w n ((beUnclipped s kc r).getD c #[])
+      = wdot w n (r.Yn1.getD c #[]) + wdot w n ((beResidual s kc r).getD c #[]) := by
+    unfold wdot
+    rw [← sum_add_distrib]
+    apply sum_congr rfl
+    intro v hv
+    rw [rd_beUnclipped kc c s r hY v (mem_range.mp hv)]; ring
+  rw [e, hδ]; ring
+
+/-! ### C08: linear mechanisms -/
+
+/-- algebra of the first Newton iteration from `y = y_n` for `f(y) = A y`, `J = A`:
+    `(I/H − A) δ = A y_n` gives `(I − H A)(y_n + δ) = y_n` -/
+theorem be_linear_first_alg (n : Nat) (A : Nat → Nat → K) (h : K) (hh : h ≠ 0) (yn δ : Nat → K)
+    (hs : ∀ i, i < n → ∑ j ∈ range n, ((if i = j then 1 / h else 0) - A i j) * δ j
+      = ∑ j ∈ range n, A i j * yn j) (i : Nat) (hi : i < n) :
+    ∑ j ∈ range n, ((if i = j then 1 else 0) - h * A i j) * (yn j + δ j) = yn i := by
+  have e : ∀ j ∈ range n, ((if i = j then (1 : K) else 0) - h * A i j) * (yn j + δ j)
+      = (if i = j then yn j else 0) - h * (A i j * yn j)
+        + h * (((if i = j then 1 / h else 0) - A i j) * δ j) := by
+    intro j _
+    by_cases hij : i = j
+    · simp only [hij, if_true]; field_simp
+    · simp only [hij, if_false]; ring
+  rw [sum_congr rfl e, sum_add_distrib, sum_sub_distrib, ← mul_sum, ← mul_sum, hs i hi, sum_ite_eq]
+  simp only [mem_range, hi, if_true]; ring
+
+theorem rd_ge_size (x : Array K) (j : Nat) (h : x.size ≤ j) : rd x j = 0 := by
+  unfold rd
+  rw [Array.getD_eq_getD_getElem?, Array.getElem?_eq_none h]; rfl
+
+/-- a vector all of whose (total) reads are zero -/
+def AllZero (x : Array K) : Prop := ∀ j, rd x j = 0
+
+theorem allZero_wr_zero (x : Array K) (h : AllZero x) (i : Nat) (v : K) (hv : v = 0) :
+    AllZero (wr x i v) := by
+  intro j; rw [rd_wr]; split
+  · exact hv
+  · exact h j
+
+theorem allZero_elim_fold (M : Array K) (l : List (Nat × Nat)) (i : Nat) (x : Array K)
+    (h : AllZero x) :
+    AllZero (l.foldl (fun x p => wr x i (rd x i - rd M p.1 * rd x p.2)) x) := by
+  induction l generalizing x with
+  | nil => exact h
+  | cons q l ih =>
+    simp only [List.foldl_cons]
+    apply ih
+    exact allZero_wr_zero x h i _ (by rw [h i, h q.2]; ring)
+
+theorem allZero_sub_fold (M : Array K) (rows : List SubRow) (dv : Bool)
+    (next : Nat → Nat) (st : Array K × Nat) (h : AllZero st.1) :
+    AllZero (rows.foldl (fun (s : Array K × Nat) r =>
+      let x := r.pairs.foldl (fun x p => wr x s.2 (rd x s.2 - rd M p.1 * rd x p.2)) s.1
+      ((if dv then wr x s.2 (rd x s.2 / rd M r.diag) else x), next s.2)) st).1 := by
+  induction rows generalizing st with
+  | nil => exact h
+  | cons r rows ih =>
+    simp only [List.foldl_cons]
+    apply ih
+    have h1 := allZero_elim_fold M r.pairs st.2 st.1 h
+    cases dv
+    · exact h1
+    · exact allZero_wr_zero _ h1 _ _ (by rw [h1 st.2]; simp)
+
+theorem solveCell_allZero (fw bw : List SubRow) (L U x : Array K) (h : AllZero x) :
+    AllZero (solveCell fw bw L U x) := by
+  unfold solveCell
+  simp only []
+  have h1 := allZero_sub_fold L fw true (fun i => i + 1) (x, 0) h
+  simp only [if_true] at h1
+  generalize (fw.foldl _ (x, 0)) = st1 at h1 ⊢
+  have h2 := allZero_sub_fold U bw true (fun i => if i = 0 then 0 else i - 1)
+    (st1.1, st1.1.size - 1) h1
+  simp only [if_true] at h2
+  exact h2
+
+theorem solveInPlaceCell_allZero (fw bw : List SubRow) (M x : Array K) (h : AllZero x) :
+    AllZero (solveInPlaceCell fw bw M x) := by
+  unfold solveInPlaceCell
+  simp only []
+  have h1 := allZero_sub_fold M fw false (fun i => i + 1) (x, 0) h
+  simp only [Bool.false_eq_true, if_false] at h1
+  generalize (fw.foldl _ (x, 0)) = st1 at h1 ⊢
+  have h2 := allZero_sub_fold M bw true (fun i => if i = 0 then 0 else i - 1)
+    (st1.1, st1.1.size - 1) h1
+  simp only [if_true] at h2
+  exact h2
+
+/-- `Solve` of a zero right-hand side is zero, whatever the factors hold (no pivot hypothesis:
+    `0 / x = 0` in a field also for `x = 0`) -/
+theorem linSolve_allZero (s : SolverCfg K) (J Lo Up X : Mat K) (c : Nat) (hc : c < X.size)
+    (h : AllZero (X.getD c #[])) : AllZero ((s.linSolve J Lo Up X).getD c #[]) := by
+  rw [linSolve_getD s J Lo Up X c hc]
+  by_cases hk : s.la.kind.inPlace = true
+  · rw [if_pos hk]; exact solveInPlaceCell_allZero _ _ _ _ h
+  · rw [if_neg hk]; exact solveCell_allZero _ _ _ _ _ h
+
+/-- **fixed point**: if the residual `f(Yn1) − (Yn1 − Yn)/H` of cell `c` vanishes, the Newton update
+    of that cell is zero -/
+theorem be_residual_zero (s : SolverCfg K) (r : BEState K) (hf0 : CellShape n c r.sc.f0)
+    (h0 : ∀ i, i < n → rd ((beForcing s kc r).getD c #[]) i
+      - (rd (r.Yn1.getD c #[]) i - rd (r.Yn.getD c #[]) i) / r.h = 0) :
+    ∀ v, rd ((beResidual s kc r).getD c #[]) v = 0 := by
+  obtain ⟨x1, x2⟩ := beRhs_cell kc c s r hf0
+  rw [beResidual_eq]
+  apply linSolve_allZero s _ _ _ _ c x1.1
+  intro j
+  by_cases hj : j < n
+  · rw [x2 j hj, h0 j hj]
+  · exact rd_ge_size _ _ (by rw [x1.2]; omega)
+
+end BEField
+
+
+/-! ### C08 / C09 : statements about one or two iterations of `beStep`, and the whole loop -/
+
+section BEField2
+variable {K : Type} [Field K]
+variable (o : Ops K) {s : SolverCfg K} (p : BEParams K) (kc : Mat K) (atol : Array K) (rtol : K)
+    (T : K) {n : Nat} (c : Nat) {m : NameMap} {procs : List (Process K)} {kind : LUKind}
+    {jac : Pattern}
+
+/-- first Newton iteration of an outer iteration (`Yn1 = Yn` on the cell) when, at `Yn1`, the
+    forcing is `A·y` and `−∂f/∂y = −A`: the un-clipped iterate `y` satisfies `(I − H A) y = y_n` -/
+theorem be_linear_first (hb : BuiltCfg s m procs n kind jac) (A : Nat → Nat → K) (r : BEState K)
+    (hh : r.h ≠ 0) (hY : CellShape n c r.Yn1) (hf0 : CellShape n c r.sc.f0)
+    (hj : CellShape s.la.A.nnz c r.sc.jac) (hl : CellShape s.la.Lp.nnz c r.sc.lower)
+    (hu : CellShape s.la.Up.nnz c r.sc.upper)
+    (hpiv : ∀ i, i < n → attPivot s (beFactor s kc r) c i ≠ 0)
+    (hstart : ∀ i, i < n → rd (r.Yn1.getD c #[]) i = rd (r.Yn.getD c #[]) i)
+    (hlinF : ∀ i, i < n → rd ((beForcing s kc r).getD c #[]) i
+      = ∑ j ∈ range n, A i j * rd (r.Yn1.getD c #[]) j)
+    (hlinJ : ∀ i j, i < n → j < n →
+      negJac m procs (kc.getD c #[]) (r.Yn1.getD c #[]) i j = - A i j)
+    (i : Nat) (hi : i < n) :
+    ∑ j ∈ range n, ((if i = j then 1 else 0) - r.h * A i j)
+      * rd ((beUnclipped s kc r).getD c #[]) j = rd (r.Yn.getD c #[]) i := by
+  have hsys := be_newton_system kc c hb r hf0 hj hl hu hpiv
+  have hs : ∀ i, i < n → ∑ j ∈ range n, ((if i = j then 1 / r.h else 0) - A i j)
+      * rd ((beResidual s kc r).getD c #[]) j = ∑ j ∈ range n, A i j * rd (r.Yn.getD c #[]) j := by
+    intro i hi
+    have h1 := hsys i hi
+    rw [hlinF i hi, hstart i hi, sub_self, zero_div, sub_zero] at h1
+    have e2 : ∑ j ∈ range n, A i j * rd (r.Yn.getD c #[]) j
+        = ∑ j ∈ range n, A i j * rd (r.Yn1.getD c #[]) j :=
+      sum_congr rfl (fun j hj' => by rw [hstart j (mem_range.mp hj')])
+    rw [e2, ← h1]
+    apply sum_congr rfl
+    intro j hj'
+    rw [hlinJ i j hi (mem_range.mp hj')]; ring
+  have := be_linear_first_alg n A r.h hh (fun j => rd (r.Yn.getD c #[]) j)
+    (fun j => rd ((beResidual s kc r).getD c #[]) j) hs i hi
+  rw [← this]
+  apply sum_congr rfl
+  intro j hj'
+  rw [rd_beUnclipped kc c s r hY j (mem_range.mp hj'), hstart j (mem_range.mp hj')]
+
+/-- if the current iterate already satisfies `(I − H A) y = y_n` and the forcing at it is `A·y`,
+    the Newton update of the cell is zero (the residual vanishes) -/
+theorem be_linear_fixed (s : SolverCfg K) (A : Nat → Nat → K) (r : BEState K) (hh : r.h ≠ 0)
+    (hf0 : CellShape n c r.sc.f0)
+    (hlinF : ∀ i, i < n → rd ((beForcing s kc r).getD c #[]) i
+      = ∑ j ∈ range n, A i j * rd (r.Yn1.getD c #[]) j)
+    (hfix : ∀ i, i < n → ∑ j ∈ range n, ((if i = j then 1 else 0) - r.h * A i j)
+      * rd (r.Yn1.getD c #[]) j = rd (r.Yn.getD c #[]) i) :
+    ∀ v, rd ((beResidual s kc r).getD c #[]) v = 0 := by
+  apply be_residual_zero kc c s r hf0
+  intro i hi
+  have h1 := hfix i hi
+  have e : ∀ j ∈ range n, ((if i = j then (1 : K) else 0) - r.h * A i j) * rd (r.Yn1.getD c #[]) j
+      = (if i = j then rd (r.Yn1.getD c #[]) j else 0) - r.h * (A i j * rd (r.Yn1.getD c #[]) j) := by
+    intro j _
+    by_cases hij : i = j
+    · simp only [hij, if_true]; ring
+    · simp only [hij, if_false]; ring
+  rw [sum_congr rfl e, sum_sub_distrib, sum_ite_eq, ← mul_sum] at h1
+  simp only [mem_range, hi, if_true] at h1
+  rw [hlinF i hi, ← h1]
+  field_simp
+  ring
+
+/-- the state after a continuing Newton iteration, field by field -/
+theorem beStep_cont_fields (r : BEState K) (hd : (beHead o T r).done = false)
+    (hc : beConv o s p kc atol rtol r = false) (hm : r.iterations + 1 < p.maxSteps) :
+    let r1 := beStep o s p kc atol rtol T r
+    r1.Yn1 = beNewY o s kc r ∧ r1.Yn = r.Yn ∧ r1.h = r.h ∧ r1.t = r.t ∧
+    r1.sc.f0 = beResidual s kc r ∧ r1.iterations = r.iterations + 1 ∧
+    (beHead o T r1).done = false := by
+  intro r1
+  have e : r1 = beNewton o s kc (beHead o T r) := beStep_of_cont o s p kc atol rtol T r hd hc hm
+  refine ⟨by rw [e]; simp [beNewton], by rw [e]; simp [beNewton], by rw [e]; simp [beNewton],
+    by rw [e]; simp [beNewton], by rw [e]; simp [beNewton], by rw [e]; simp [beNewton], ?_⟩
+  have hit : r1.iterations ≠ 0 := by rw [e]; simp [beNewton]
+  have hdn : r1.done = false := by rw [e]; simpa [beNewton] using hd
+  rcases beHead_cases o T r1 with ⟨h0, _, _⟩ | ⟨h0, _, _⟩ | ⟨_, h⟩
+  · exact absurd h0 hit
+  · exact absurd h0 hit
+  · rw [h]; exact hdn
+
+theorem beResidual_shape (s : SolverCfg K) (r : BEState K) (hf0 : CellShape n c r.sc.f0) :
+    CellShape n c (beResidual s kc r) := by
+  rw [beResidual_eq]
+  exact cellShape_linSolve s _ _ _ _ (beRhs_cell kc c s r hf0).1
+
+/-- **C08, two iterations.**  Start of an outer iteration (`iterations = 0`, `Yn1 = Yn` on the
+    cell), `max_number_of_steps > 1`, a mechanism that is linear on cell `c` (`f(y) = A y`,
+    `∂f/∂y = A` for every `y`), no zero pivot, and a first iterate that is not clipped.  Then after
+    the first iteration `(I − H A) Yn1 = Yn`, and the second iteration computes `δ = 0`. -/
+theorem be_linear_two_steps (hb : BuiltCfg s m procs n kind jac) (A : Nat → Nat → K) (r : BEState K)
+    (h0 : r.iterations = 0) (hd : (beHead o T r).done = false) (hm : 1 < p.maxSteps)
+    (hh : r.h ≠ 0) (hY : CellShape n c r.Yn1) (hf0 : CellShape n c r.sc.f0)
+    (hj : CellShape s.la.A.nnz c r.sc.jac) (hl : CellShape s.la.Lp.nnz c r.sc.lower)
+    (hu : CellShape s.la.Up.nnz c r.sc.upper)
+    (hpiv : ∀ i, i < n → attPivot s (beFactor s kc r) c i ≠ 0)
+    (hstart : ∀ i, i < n → rd (r.Yn1.getD c #[]) i = rd (r.Yn.getD c #[]) i)
+    (hlinF : ∀ y : Array K, ∀ i, i < n →
+      rd (s.tables.addForcingCell (kc.getD c #[]) y (Array.replicate n 0)) i
+        = ∑ j ∈ range n, A i j * rd y j)
+    (hlinJ : ∀ y : Array K, ∀ i j, i < n → j < n → negJac m procs (kc.getD c #[]) y i j = - A i j)
+    (hnoclip : ∀ v, v < n → rd ((beNewY o s kc r).getD c #[]) v
+      = rd ((beUnclipped s kc r).getD c #[]) v) :
+    (∀ i, i < n → ∑ j ∈ range n, ((if i = j then 1 else 0) - r.h * A i j)
+      * rd ((beStep o s p kc atol rtol T r).Yn1.getD c #[]) j = rd (r.Yn.getD c #[]) i) ∧
+    (∀ v, rd ((beStep o s p kc atol rtol T (beStep o s p kc atol rtol T r)).sc.f0.getD c #[]) v = 0) := by
+  have hc := beConv_first o s p kc atol rtol r h0
+  obtain ⟨e1, e2, e3, _, e5, _, e7⟩ :=
+    beStep_cont_fields o p kc atol rtol T r hd hc (by omega)
+  have hfirst : ∀ i, i < n → ∑ j ∈ range n, ((if i = j then 1 else 0) - r.h * A i j)
+      * rd ((beStep o s p kc atol rtol T r).Yn1.getD c #[]) j = rd (r.Yn.getD c #[]) i := by
+    intro i hi
+    rw [e1, ← be_linear_first kc c hb A r hh hY hf0 hj hl hu hpiv hstart
+      (fun i hi => by rw [(beForcing_cell kc c s r hf0).2]; exact hlinF _ i hi)
+      (fun i j hi hj' => hlinJ _ i j hi hj') i hi]
+    apply sum_congr rfl
+    intro j hj'
+    rw [hnoclip j (mem_range.mp hj')]
+  refine ⟨hfirst, ?_⟩
+  have hsc := beStep_sc o s p kc atol rtol T (beStep o s p kc atol rtol T r) e7
+  rw [hsc]
+  simp only []
+  have hf0' : CellShape n c (beStep o s p kc atol rtol T r).sc.f0 := by
+    rw [e5]; exact beResidual_shape kc c s r hf0
+  apply be_linear_fixed kc c s A _ (by rw [e3]; exact hh) hf0'
+  · intro i hi
+    rw [(beForcing_cell kc c s _ hf0').2]; exact hlinF _ i hi
+  · intro i hi
+    rw [e3, e2]; exact hfirst i hi
+
+/-! ### C09: the whole loop when nothing is clipped -/
+
+/-- invariant of cell `c`: buffers of the configured sizes, and both `Yn1` and `Yn` carry the
+    conserved sum `σ` -/
+structure BEConsInv (s : SolverCfg K) (w : Nat → K) (n c : Nat) (σ : K) (r : BEState K) : Prop where
+  Y1 : CellShape n c r.Yn1
+  Y : CellShape n c r.Yn
+  f0 : CellShape n c r.sc.f0
+  jac : CellShape s.la.A.nnz c r.sc.jac
+  lower : CellShape s.la.Lp.nnz c r.sc.lower
+  upper : CellShape s.la.Up.nnz c r.sc.upper
+  sum1 : wdot w n (r.Yn1.getD c #[]) = σ
+  sum : wdot w n (r.Yn.getD c #[]) = σ
+
+/-- what has to hold of the Newton iteration made from `r` (if one is made): `H ≠ 0`, no zero pivot
+    in cell `c`, and the clamp does not change cell `c` -/
+def BENoClip (s : SolverCfg K) (n c : Nat) (r : BEState K) : Prop :=
+  (beHead o T r).done = false →
+    r.h ≠ 0 ∧ (∀ i, i < n → attPivot s (beFactor s kc r) c i ≠ 0) ∧
+    ∀ v, v < n → rd ((beNewY o s kc r).getD c #[]) v = rd ((beUnclipped s kc r).getD c #[]) v
+
+theorem BEConsInv_step (hb : BuiltCfg s m procs n kind jac) (rxns : List (RRxn K))
+    (hr : Resolves m procs rxns) (w : Nat → K)
+    (hbal : ∀ rx ∈ rxns, (rx.2.map fun p => w p.1 * p.2).sum = (rx.1.map w).sum)
+    (σ : K) (r : BEState K) (h : BEConsInv s w n c σ r) (hnc : BENoClip o kc T s n c r) :
+    BEConsInv s w n c σ (beStep o s p kc atol rtol T r) := by
+  cases hd : (beHead o T r).done
+  · obtain ⟨hh, hpiv, hno⟩ := hnc hd
+    have hcons := (be_unclipped_conserves kc c hb rxns hr w hbal r hh h.Y1 h.f0 h.jac h.lower h.upper
+      hpiv).2
+    have hN : CellShape n c (beNewY o s kc r) := (beNewY_shape o kc c r h.Y1).1
+    have hNs : wdot w n ((beNewY o s kc r).getD c #[]) = σ := by
+      rw [← h.sum, ← hcons]
+      unfold wdot
+      apply sum_congr rfl
+      intro v hv
+      rw [hno v (mem_range.mp hv)]
+    have hM : CellShape s.la.A.nnz c (beMatrix s kc r) := by
+      rw [beMatrix_eq]
+      exact cellShape_shift s _ _ (cellShape_jacobian s kc _ _ (cellShape_fillM h.jac 0).1)
+    obtain ⟨f1, f2, f3⟩ := cellShape_factor s (beMatrix s kc r) r.sc.lower r.sc.upper hM h.lower h.upper
+    have hsc := beStep_sc o s p kc atol rtol T r hd
+    have hY1 := beStep_Yn1 o s p kc atol rtol T r hd
+    have hY1' : CellShape n c (beStep o s p kc atol rtol T r).Yn1 ∧
+        wdot w n ((beStep o s p kc atol rtol T r).Yn1.getD c #[]) = σ := by
+      rw [hY1]; split
+      · exact ⟨h.Y, h.sum⟩
+      · exact ⟨hN, hNs⟩
+    have hYn : CellShape n c (beStep o s p kc atol rtol T r).Yn ∧
+        wdot w n ((beStep o s p kc atol rtol T r).Yn.getD c #[]) = σ := by
+      rcases beStep_Yn o s p kc atol rtol T r with ⟨e, _⟩ | ⟨e, _⟩
+      · rw [e]; exact ⟨h.Y, h.sum⟩
+      · rw [e]; exact hY1'
+    refine ⟨hY1'.1, hYn.1, ?_, ?_, ?_, ?_, hY1'.2, hYn.2⟩
+    · rw [hsc]; exact beResidual_shape kc c s r h.f0
+    · rw [hsc]; exact f1
+    · rw [hsc]; exact f2
+    · rw [hsc]; exact f3
+  · rw [beStep_of_exit o s p kc atol rtol T r hd]
+    exact ⟨by simpa using h.Y1, by simpa using h.Y, by simpa using h.f0, by simpa using h.jac,
+      by simpa using h.lower, by simpa using h.upper, by simpa using h.sum1, by simpa using h.sum⟩
+
+theorem BEConsInv_loop (hb : BuiltCfg s m procs n kind jac) (rxns : List (RRxn K))
+    (hr : Resolves m procs rxns) (w : Nat → K)
+    (hbal : ∀ rx ∈ rxns, (rx.2.map fun p => w p.1 * p.2).sum = (rx.1.map w).sum)
+    (σ : K) (fuel : Nat) (r : BEState K) (h : BEConsInv s w n c σ r)
+    (hnc : ∀ k, k < fuel → BENoClip o kc T s n c ((beStep o s p kc atol rtol T)^[k] r)) :
+    BEConsInv s w n c σ (beLoop o s p kc atol rtol T fuel r) := by
+  induction fuel generalizing r with
+  | zero =>
+    rw [beLoop_zero]; split
+    · exact h
+    · exact ⟨h.1, h.2, h.3, h.4, h.5, h.6, h.7, h.8⟩
+  | succ fuel ih =>
+    rw [beLoop_succ]; split
+    · exact h
+    · apply ih _ (BEConsInv_step o p kc atol rtol T c hb rxns hr w hbal σ r h (hnc 0 (by omega)))
+      intro k hk
+      have := hnc (k + 1) (by omega)
+      rwa [Function.iterate_succ_apply] at this
+
+end BEField2
+
+/-! ### a concrete instance over `ℚ` used by the `example`s of C05b/C06c/C07b/C08b/C09c:
+    `A → B` (rate constant `k`), which conserves `A + B` and is linear: `f(y) = (−k y₀, k y₀)` -/
+
+namespace BEEx
+
+def procs : List (Process ℚ) :=
+  [ { reactants := [⟨"A", false⟩], products := [(⟨"B", false⟩, 1)] } ]
+
+def nmap : NameMap := [("A", 0), ("B", 1)]
+
+def rxns : List (RRxn ℚ) := [([0], [(1, 1)])]
+
+def w : Nat → ℚ
+  | 0 => 1
+  | 1 => 1
+  | _ => 0
+
+def tables : PSTables ℚ :=
+  { nReact := [1], reactIds := [0], nProd := [1], prodIds := [1], yields := [1],
+    jInfo := [⟨0, 0, 0, 1⟩], jReactIds := [], jProdIds := [1], jYields := [1] }
+
+theorem exBuild : ProcessSet.build procs nmap = .ok tables := rfl
+
+theorem exResolves : Resolves nmap procs rxns := by unfold Resolves; rfl
+
+theorem exBalanced : ∀ rx ∈ rxns, (rx.2.map fun p => w p.1 * p.2).sum = (rx.1.map w).sum := by
+  decide +kernel
+
+/-- the Jacobian pattern the builder creates: `(0,0) (1,0) (1,1)` -/
+def jacP : Pattern := Pattern.mk' 2 false 0 (buildJacobianSet 2 tables.nonZeroJacobianElements)
+
+def flat : List Nat := [0, 1]
+
+theorem exFlat (kind : LUKind) : tables.jacobianFlatIds (LinAlg.build kind jacP).A = .ok flat := by
+  cases kind <;> decide +kernel
+
+/-- the configuration, assembled as the builder does -/
+def cfg (kind : LUKind) : SolverCfg ℚ :=
+  { nSpecies := 2, L := 0, tables := tables, flatIds := flat, la := LinAlg.build kind jacP,
+    diag := (LinAlg.build kind jacP).A.diagRanks }
+
+/-- `BuiltCfg` is satisfiable: it holds for this configuration, for every LU variant -/
+theorem exBuilt (kind : LUKind) : BuiltCfg (cfg kind) nmap procs 2 kind jacP :=
+  builtCfg_of_builder procs nmap tables exBuild (by decide) (by decide) (by simp [procs])
+    2 (by decide) false 0 0 kind flat (exFlat kind)
+
+/-- scratch buffers of the configured sizes, filled with junk (`7`) -/
+def scratch (kind : LUKind) : Scratch ℚ :=
+  let d : Mat ℚ := #[#[7, 7]]
+  { jac := #[Array.replicate (cfg kind).la.A.nnz 7], lower := #[Array.replicate (cfg kind).la.Lp.nnz 7],
+    upper := #[Array.replicate (cfg kind).la.Up.nnz 7], ynew := d, f0 := d, k := #[], yerr := d }
+
+/-- the defaults of `BackwardEulerSolverParameters` (`small = 1e-40`, `h_start = 0`,
+    `max_number_of_steps = 11`, reductions `½ ½ ½ ½ 0.1`) -/
+def params : BEParams ℚ :=
+  { small := 1 / 10 ^ 40, hstart := 0, maxSteps := 11, reductions := [1/2, 1/2, 1/2, 1/2, 1/10] }
+
+/-- rate constant `k = 1`, `Y₀ = (1, 0)`, `atol = rtol = 1/10` -/
+def run (kind : LUKind) (p : BEParams ℚ) (T : ℚ) (fuel : Nat) : SolveResult ℚ :=
+  beSolve ratOps (cfg kind) p #[#[1]] #[1/10, 1/10] (1/10) T #[#[1, 0]] (scratch kind) fuel
+
+/-- the state in which `run` enters the loop -/
+def init (kind : LUKind) (p : BEParams ℚ) (T : ℚ) : BEState ℚ :=
+  beInit (beInitialH ratOps p T) #[#[1, 0]] (scratch kind)
+
+/-- the `k`-th loop state of `run` -/
+def iter (kind : LUKind) (p : BEParams ℚ) (T : ℚ) (k : Nat) : BEState ℚ :=
+  (beStep ratOps (cfg kind) p #[#[1]] #[1/10, 1/10] (1/10) T)^[k] (init kind p T)
+
+end BEEx
+
 end Micm
